@@ -108,7 +108,7 @@ def main():
                 "tracked_kinds_seen": sorted(set(k for r in results for k, _ in (r.get("dag_markers") or [])))}
 
     return suite.run_property(
-        "C14", cs,
+        "C14", cs, kani=True,
         technique="SMT (z3, QF_UFBV) equivalence of the debug build and the plain build of the emitted Simplicity DAG for all witnesses (jets uninterpreted for the shipped examples); structural comparison of marker CMRs with debug_symbols() and with the tracked calls of the program text",
         functions=["compile.rs: Scope::with_debug_symbol, Call::compile", "debug.rs: CallTracker::track_call/get_cmr/with_file, DebugSymbols::insert/get (through the public API)",
                    "ast.rs: track_call sites", "named.rs: assertl_drop, bit"],
